@@ -54,6 +54,7 @@ def plan(tier: str, seed: int):
 
 
 _JIT = {}
+CLONE = [0]
 
 
 def jit_helpers():
@@ -231,6 +232,13 @@ def eval_length(ctx, n, cfg, matrix, plan_rows, tag, bye_cells="all",
     ctx.count(f"dtype[{inst.dtype}]")
     v = obj.evaluate(gp)
     want = ot.plan_length(matrix, plan_rows)
+    CLONE[0] += 1
+    if CLONE[0] % 8 == 0:
+        from vlib.clones import judge_clones
+        judge_clones(ctx, obj, lambda o: (o.evaluate(gp), o.lower_bound(),
+                                          o.upper_bound()),
+                     (want, obj.lower_bound(), obj.upper_bound()),
+                     "plan-length", case)
     mx = max(max(r) for r in matrix)
     if obj.bye_penalty != 2 * mx + 1:
         ctx.violation("bye-penalty", f"bye_penalty={obj.bye_penalty}, "
